@@ -47,7 +47,9 @@ bv256 __CPROVER_uninterpreted_tomn(bv256); bv256 __CPROVER_uninterpreted_mmn(bv2
 /* ghost: recording of the core verification call made by the DER-level wrappers */
 int G_dv_last; unsigned G_dv_calls; const void *G_dv_key; const void *G_dv_dgst; uint8_t G_dv_sigbyte;
 /* ghost: nonce handed out by the replaced sm2_z256_rand_range */
-uint64_t G_k_drawn[4]; unsigned G_rand_calls; int G_rand_fail;
+#define G_k_drawn verif_k_drawn
+#define G_rand_calls verif_rand_calls
+#define G_rand_fail verif_rand_fail
 size_t G_sk2;   /* ghost index into the 64 signature bytes */
 #endif
 
@@ -68,22 +70,22 @@ gpt_t G_pa_a, G_pa_b, G_pa_out; unsigned G_pa_calls;                 /* P+Q  : o
 gpt_t G_gx_in; uint64_t G_gx_x[4]; unsigned G_gx_calls;              /* affine x : operand, result */
 #endif
 void sm2_z256_point_mul_generator(SM2_Z256_POINT *R, const sm2_z256_t k)
-REQUIRES(W_OK(R, sizeof(*R)) && R_OK(k, 32))
+REQUIRES(WR_OK(R, sizeof(*R)) && RD_OK(k, 32))
 ASSIGNS(OBJ_UPTO((uint8_t *)R, sizeof(*R)), OBJ_WHOLE(G_mg_k), G_mg_out, G_mg_calls)
 ENSURES(G_mg_calls == OLD(G_mg_calls) + 1 && VAL4(G_mg_k) == MK4(OLD(k[3]), OLD(k[2]), OLD(k[1]), OLD(k[0])) && PT_EQ(G_mg_out, R))
 ;
 void sm2_z256_point_mul(SM2_Z256_POINT *R, const sm2_z256_t k, const SM2_Z256_POINT *P)
-REQUIRES(W_OK(R, sizeof(*R)) && R_OK(k, 32) && R_OK(P, sizeof(*P)) && SEPARATE(R, P) && SEPARATE(R, k))
+REQUIRES(WR_OK(R, sizeof(*R)) && RD_OK(k, 32) && RD_OK(P, sizeof(*P)) && SEPARATE(R, P) && SEPARATE(R, k))
 ASSIGNS(OBJ_UPTO((uint8_t *)R, sizeof(*R)), OBJ_WHOLE(G_pm_k), G_pm_in, G_pm_out, G_pm_calls)
 ENSURES(G_pm_calls == OLD(G_pm_calls) + 1 && VAL4(G_pm_k) == VAL4(k) && PT_EQ(G_pm_in, P) && PT_EQ(G_pm_out, R))
 ;
 void sm2_z256_point_mul_ex(SM2_Z256_POINT *R, const uint64_t k[4], const SM2_Z256_POINT *T)
-REQUIRES(W_OK(R, sizeof(*R)) && R_OK(k, 32) && R_OK(T, 16 * sizeof(*T)) && SEPARATE(R, T) && SEPARATE(R, k))
+REQUIRES(WR_OK(R, sizeof(*R)) && RD_OK(k, 32) && RD_OK(T, 16 * sizeof(*T)) && SEPARATE(R, T) && SEPARATE(R, k))
 ASSIGNS(OBJ_UPTO((uint8_t *)R, sizeof(*R)), OBJ_WHOLE(G_pm_k), G_pm_in, G_pm_out, G_pm_calls)
 ENSURES(G_pm_calls == OLD(G_pm_calls) + 1 && VAL4(G_pm_k) == VAL4(k) && PT_EQ(G_pm_in, &T[0]) && PT_EQ(G_pm_out, R))
 ;
 void sm2_z256_point_add(SM2_Z256_POINT *r, const SM2_Z256_POINT *a, const SM2_Z256_POINT *b)
-REQUIRES(W_OK(r, sizeof(*r)) && R_OK(a, sizeof(*a)) && R_OK(b, sizeof(*b)) && SEPARATE(r, b))
+REQUIRES(WR_OK(r, sizeof(*r)) && RD_OK(a, sizeof(*a)) && RD_OK(b, sizeof(*b)) && SEPARATE(r, b))
 ASSIGNS(OBJ_UPTO((uint8_t *)r, sizeof(*r)), G_pa_a, G_pa_b, G_pa_out, G_pa_calls)
 ENSURES(G_pa_calls == OLD(G_pa_calls) + 1 && PT_EQ(G_pa_b, b) && PT_EQ(G_pa_out, r))
 ENSURES(G_pa_a.X[0] == OLD(a->X[0]) && G_pa_a.X[1] == OLD(a->X[1]) && G_pa_a.X[2] == OLD(a->X[2]) && G_pa_a.X[3] == OLD(a->X[3])
@@ -92,7 +94,7 @@ ENSURES(G_pa_a.X[0] == OLD(a->X[0]) && G_pa_a.X[1] == OLD(a->X[1]) && G_pa_a.X[2
 ;
 #ifdef CONTRACT_GET_XY_UF
 int sm2_z256_point_get_xy(const SM2_Z256_POINT *P, uint64_t x[4], uint64_t y[4])
-REQUIRES(R_OK(P, sizeof(*P)) && W_OK(x, 32) && y == NULL)
+REQUIRES(RD_OK(P, sizeof(*P)) && WR_OK(x, 32) && y == NULL)
 ASSIGNS(OBJ_UPTO(x, 32), G_gx_in, OBJ_WHOLE(G_gx_x), G_gx_calls)
 ENSURES(RET == 1 || RET == 0)
 ENSURES(G_gx_calls == OLD(G_gx_calls) + 1 && PT_EQ(G_gx_in, P) && VAL4(G_gx_x) == VAL4(x) && VAL4(x) < BV_P)
@@ -101,24 +103,24 @@ ENSURES(G_gx_calls == OLD(G_gx_calls) + 1 && PT_EQ(G_gx_in, P) && VAL4(G_gx_x) =
 
 /* Z_n Montgomery layer, uninterpreted */
 void sm2_z256_modn_to_mont(const sm2_z256_t a, uint64_t r[4])
-REQUIRES(R_OK(a, 32) && W_OK(r, 32))
+REQUIRES(RD_OK(a, 32) && WR_OK(r, 32))
 ASSIGNS(OBJ_UPTO(r, 32))
 ENSURES(V256(r) == __CPROVER_uninterpreted_tomn(MK4(OLD(a[3]), OLD(a[2]), OLD(a[1]), OLD(a[0]))) && VAL4(r) < BV_N)
 ;
 void sm2_z256_modn_mont_mul(sm2_z256_t r, const sm2_z256_t a, const sm2_z256_t b)
-REQUIRES(R_OK(a, 32) && R_OK(b, 32) && W_OK(r, 32))
+REQUIRES(RD_OK(a, 32) && RD_OK(b, 32) && WR_OK(r, 32))
 ASSIGNS(OBJ_UPTO(r, 32))
 ENSURES(V256(r) == __CPROVER_uninterpreted_mmn(MK4(OLD(a[3]), OLD(a[2]), OLD(a[1]), OLD(a[0])), MK4(OLD(b[3]), OLD(b[2]), OLD(b[1]), OLD(b[0]))) && VAL4(r) < BV_N)
 ;
 void sm2_z256_modn_mont_inv(sm2_z256_t r, const sm2_z256_t a)
-REQUIRES(R_OK(a, 32) && W_OK(r, 32))
+REQUIRES(RD_OK(a, 32) && WR_OK(r, 32))
 ASSIGNS(OBJ_UPTO(r, 32))
 ENSURES(V256(r) == __CPROVER_uninterpreted_minvn(MK4(OLD(a[3]), OLD(a[2]), OLD(a[1]), OLD(a[0]))) && VAL4(r) < BV_N)
 ;
 
 /* nonce source (C18 owns its own proof): an arbitrary value below range, or failure */
 int sm2_z256_rand_range(sm2_z256_t r, const sm2_z256_t range)
-REQUIRES(W_OK(r, 32) && R_OK(range, 32))
+REQUIRES(WR_OK(r, 32) && RD_OK(range, 32))
 ASSIGNS(OBJ_UPTO(r, 32), OBJ_WHOLE(G_k_drawn), G_rand_calls, G_rand_fail)
 ENSURES(RET == 1 || RET == 0 || RET == -1)
 ENSURES(G_rand_calls == OLD(G_rand_calls) + 1)
@@ -139,7 +141,7 @@ ENSURES(RET == 1 IMPLIES GPT_EQ(G_pa_a, G_mg_out) && GPT_EQ(G_pa_b, G_pm_out) &&
 ENSURES(RET == 1 IMPLIES (bv257)BEVAL32(sig->r) == ADDN(REDN(BEVAL32(dgst)), REDN(VAL4(G_gx_x))))
 
 int sm2_do_verify(const SM2_KEY *key, const uint8_t dgst[32], const SM2_SIGNATURE *sig)
-REQUIRES(R_OK(key, sizeof(*key)) && R_OK(dgst, 32) && R_OK(sig, sizeof(*sig)))
+REQUIRES(RD_OK(key, sizeof(*key)) && RD_OK(dgst, 32) && RD_OK(sig, sizeof(*sig)))
 #ifdef CONTRACT_DO_VERIFY_RECORDING
 ASSIGNS(G_dv_last, G_dv_calls, G_dv_key, G_dv_dgst, G_dv_sigbyte)
 ENSURES(RET == 1 || RET == -1)
@@ -152,7 +154,7 @@ SM2_VERIFY_POST(&key->public_key)
 ;
 
 int sm2_fast_verify(const SM2_Z256_POINT point_table[16], const uint8_t dgst[32], const SM2_SIGNATURE *sig)
-REQUIRES(R_OK(point_table, 16 * sizeof(SM2_Z256_POINT)) && R_OK(dgst, 32) && R_OK(sig, sizeof(*sig)))
+REQUIRES(RD_OK(point_table, 16 * sizeof(SM2_Z256_POINT)) && RD_OK(dgst, 32) && RD_OK(sig, sizeof(*sig)))
 #ifdef CONTRACT_DO_VERIFY_RECORDING
 ASSIGNS(G_dv_last, G_dv_calls, G_dv_key, G_dv_dgst, G_dv_sigbyte)
 ENSURES(RET == 1 || RET == -1)
@@ -167,7 +169,7 @@ SM2_VERIFY_POST(&point_table[0])
 /* ---- signature DER ---- */
 /* strict SEQUENCE{INTEGER,INTEGER}: content consumed entirely, each value <= 32 bytes, right-aligned big-endian */
 int sm2_signature_from_der(SM2_SIGNATURE *sig, const uint8_t **in, size_t *inlen)
-REQUIRES(W_OK(sig, sizeof(*sig)) && DER_RD_REQ(in, inlen))
+REQUIRES(WR_OK(sig, sizeof(*sig)) && DER_RD_REQ(in, inlen))
 ASSIGNS(OBJ_UPTO((uint8_t *)sig, sizeof(*sig)), *in, *inlen)
 ENSURES(RET == 1 || RET == 0 || RET == -1)
 ENSURES(RET == 0 IMPLIES DER_RD_SAME(in, inlen))
@@ -175,7 +177,7 @@ ENSURES(RET == 1 IMPLIES DER_RD_ADV(in, inlen) && DER_CONSUMED(inlen) >= 8 && DE
 ;
 
 int sm2_signature_to_der(const SM2_SIGNATURE *sig, uint8_t **out, size_t *outlen)
-REQUIRES((sig == NULL || R_OK(sig, sizeof(*sig))) && DER_WR_REQ(out, outlen, SM2_MAX_SIGNATURE_SIZE))
+REQUIRES((sig == NULL || RD_OK(sig, sizeof(*sig))) && DER_WR_REQ(out, outlen, SM2_MAX_SIGNATURE_SIZE))
 ASSIGNS(*outlen; out != NULL: *out; out != NULL && *out != NULL: OBJ_UPTO(*out, SM2_MAX_SIGNATURE_SIZE))
 ENSURES(RET == 1 || RET == 0 || RET == -1)
 ENSURES((RET == 1) == (sig != NULL))
@@ -187,7 +189,7 @@ ENSURES(RET == 1 IMPLIES (out == NULL || (OLD(*out) == NULL ? *out == NULL :
 /* DER-level verification: accepts only one strictly encoded signature with NO trailing bytes, and only if the core
    verification returned 1 on exactly the parsed (r, s), the caller's digest and the caller's key */
 int sm2_verify(const SM2_KEY *key, const uint8_t dgst[32], const uint8_t *sigbuf, size_t siglen)
-REQUIRES((key == NULL || R_OK(key, sizeof(*key))) && (dgst == NULL || R_OK(dgst, 32)) && siglen <= 4096 && (sigbuf == NULL || R_OK(sigbuf, siglen)))
+REQUIRES((key == NULL || RD_OK(key, sizeof(*key))) && (dgst == NULL || RD_OK(dgst, 32)) && siglen <= 4096 && (sigbuf == NULL || RD_OK(sigbuf, siglen)))
 ASSIGNS(G_dv_last, G_dv_calls, G_dv_key, G_dv_dgst, G_dv_sigbyte)
 ENSURES(RET == 1 || RET == -1)
 ENSURES(RET == 1 IMPLIES G_dv_calls == OLD(G_dv_calls) + 1 && G_dv_last == 1 && G_dv_key == (const void *)key && G_dv_dgst == (const void *)dgst)
@@ -196,7 +198,7 @@ ENSURES(RET == 1 IMPLIES G_dv_calls == OLD(G_dv_calls) + 1 && G_dv_last == 1 && 
 /* Z = SM3(ENTL || ID || a || b || Gx || Gy || Px || Py): C01 "the ID bound into the digest is exactly the idlen bytes
    the caller passed": the stream absorbed is that sequence for THE GIVEN idlen, and no byte of id at index >= idlen is read */
 int sm2_compute_z(uint8_t z[32], const SM2_Z256_POINT *pub, const char *id, size_t idlen)
-REQUIRES(W_OK(z, 32) && R_OK(pub, sizeof(*pub)) && idlen >= 1 && idlen <= SM2_MAX_ID_LENGTH && R_OK(id, idlen))
+REQUIRES(WR_OK(z, 32) && RD_OK(pub, sizeof(*pub)) && idlen >= 1 && idlen <= SM2_MAX_ID_LENGTH && RD_OK(id, idlen))
 ASSIGNS(OBJ_UPTO(z, 32), G_fin_fed, G_fin_tbyte, G_fin_tseen, G_fin_calls)
 ENSURES(RET == 1)
 ENSURES(G_fin_calls == OLD(G_fin_calls) + 1 && G_fin_fed == 2 + idlen + 192)
@@ -214,7 +216,7 @@ ENSURES((V256(pub->Z) == BV_MONT_ONE && !ISINF(pub) && G_tk >= 2 + idlen + 160 &
 
 /* streaming verification: same acceptance condition as sm2_verify, on the digest of the context's stream */
 int sm2_verify_finish(SM2_VERIFY_CTX *ctx, const uint8_t *sigbuf, size_t siglen)
-REQUIRES((ctx == NULL || RW_OK(ctx, sizeof(*ctx))) && siglen <= 4096 && (sigbuf == NULL || R_OK(sigbuf, siglen)))
+REQUIRES((ctx == NULL || RW_OK(ctx, sizeof(*ctx))) && siglen <= 4096 && (sigbuf == NULL || RD_OK(sigbuf, siglen)))
 ASSIGNS(ctx != NULL: OBJ_UPTO((uint8_t *)ctx, sizeof(*ctx)); G_dv_last, G_dv_calls, G_dv_key, G_dv_dgst, G_dv_sigbyte, G_fin_fed, G_fin_tbyte, G_fin_tseen, G_fin_calls)
 ENSURES(RET == 1 || RET == -1)
 ENSURES(RET == 1 IMPLIES G_dv_calls == OLD(G_dv_calls) + 1 && G_dv_last == 1 && G_dv_key == (const void *)ctx->public_point_table)
@@ -227,7 +229,7 @@ ENSURES(RET == 1 IMPLIES G_fin_calls == OLD(G_fin_calls) + 1 && G_fin_fed == OLD
 const void *G_fs_precomp; unsigned G_fs_calls; int G_fs_last; unsigned G_pc_calls; int G_pc_last;
 #endif
 int sm2_fast_sign_pre_compute(SM2_SIGN_PRE_COMP pre_comp[32])
-REQUIRES(W_OK(pre_comp, 32 * sizeof(SM2_SIGN_PRE_COMP)))
+REQUIRES(WR_OK(pre_comp, 32 * sizeof(SM2_SIGN_PRE_COMP)))
 #ifdef CONTRACT_SIGN_RECORDING
 ASSIGNS(OBJ_UPTO((uint8_t *)pre_comp, 32 * sizeof(SM2_SIGN_PRE_COMP)), G_pc_calls, G_pc_last)
 ENSURES(RET == 1 || RET == -1)
@@ -242,7 +244,7 @@ ENSURES(RET == 1 || RET == -1)
 /* fast path: (r, s) of GB/T 32918.2 for the precomputed nonce k (x1 = x([k]G) mod n) and d' = (1+d)^-1:
    r = (e + x1) mod n, s = ((k + r) * d' - r) mod n, and — as on the one-shot path — never r == 0, r + k == n or s == 0 */
 int sm2_fast_sign(const sm2_z256_t fast_private, SM2_SIGN_PRE_COMP *pre_comp, const uint8_t dgst[32], SM2_SIGNATURE *sig)
-REQUIRES(R_OK(fast_private, 32) && R_OK(pre_comp, sizeof(*pre_comp)) && R_OK(dgst, 32) && W_OK(sig, sizeof(*sig)))
+REQUIRES(RD_OK(fast_private, 32) && RD_OK(pre_comp, sizeof(*pre_comp)) && RD_OK(dgst, 32) && WR_OK(sig, sizeof(*sig)))
 REQUIRES(VAL4(pre_comp->k) < BV_N && VAL4(pre_comp->x1_modn) < BV_N && VAL4(fast_private) < BV_N)
 ASSIGNS(OBJ_UPTO((uint8_t *)sig, sizeof(*sig)))
 ENSURES(RET == 1 || RET == -1)
@@ -254,7 +256,7 @@ ENSURES(RET == 1 IMPLIES (bv257)BEVAL32(sig->s) == SUBN(__CPROVER_uninterpreted_
 /* one-shot path: the nonce is the LAST value drawn; r = (e + x([k]G)) mod n; retry on r == 0, r + k == n, s == 0;
    s = (1+d)^-1 * (k - r*d) over the uninterpreted Z_n Montgomery operations */
 int sm2_do_sign(const SM2_KEY *key, const uint8_t dgst[32], SM2_SIGNATURE *sig)
-REQUIRES(R_OK(key, sizeof(*key)) && R_OK(dgst, 32) && W_OK(sig, sizeof(*sig)) && VAL4(key->private_key) < BV_N)
+REQUIRES(RD_OK(key, sizeof(*key)) && RD_OK(dgst, 32) && WR_OK(sig, sizeof(*sig)) && VAL4(key->private_key) < BV_N)
 ASSIGNS(OBJ_UPTO((uint8_t *)sig, sizeof(*sig)), OBJ_WHOLE(G_k_drawn), G_rand_calls, G_rand_fail, OBJ_WHOLE(G_mg_k), G_mg_out, G_mg_calls, G_gx_in, OBJ_WHOLE(G_gx_x), G_gx_calls)
 ENSURES(RET == 1 || RET == -1)
 ENSURES(RET == 1 IMPLIES G_rand_fail == OLD(G_rand_fail) && VAL4(G_k_drawn) >= 1 && VAL4(G_k_drawn) < BV_N)
@@ -269,7 +271,7 @@ ENSURES(RET == 1 IMPLIES BEVAL32(sig->s) == __CPROVER_uninterpreted_mmn(
 
 #ifdef CONTRACT_SIGN_RECORDING
 int sm2_fast_sign(const sm2_z256_t fast_private, SM2_SIGN_PRE_COMP *pre_comp, const uint8_t dgst[32], SM2_SIGNATURE *sig)
-REQUIRES(R_OK(fast_private, 32) && R_OK(pre_comp, sizeof(*pre_comp)) && R_OK(dgst, 32) && W_OK(sig, sizeof(*sig)))
+REQUIRES(RD_OK(fast_private, 32) && RD_OK(pre_comp, sizeof(*pre_comp)) && RD_OK(dgst, 32) && WR_OK(sig, sizeof(*sig)))
 ASSIGNS(OBJ_UPTO((uint8_t *)sig, sizeof(*sig)), G_fs_precomp, G_fs_calls, G_fs_last)
 ENSURES(RET == 1 || RET == -1)
 ENSURES(G_fs_precomp == (const void *)pre_comp && G_fs_calls == OLD(G_fs_calls) + 1 && G_fs_last == RET)
@@ -277,7 +279,7 @@ ENSURES(G_fs_precomp == (const void *)pre_comp && G_fs_calls == OLD(G_fs_calls) 
 #endif
 
 int sm2_sign_finish(SM2_SIGN_CTX *ctx, uint8_t *sig, size_t *siglen)
-REQUIRES((ctx == NULL || (RW_OK(ctx, sizeof(*ctx)) && ctx->num_pre_comp <= SM2_SIGN_PRE_COMP_COUNT)) && (sig == NULL || W_OK(sig, SM2_MAX_SIGNATURE_SIZE)) && (siglen == NULL || W_OK(siglen, sizeof(*siglen))))
+REQUIRES((ctx == NULL || (RW_OK(ctx, sizeof(*ctx)) && ctx->num_pre_comp <= SM2_SIGN_PRE_COMP_COUNT)) && (sig == NULL || WR_OK(sig, SM2_MAX_SIGNATURE_SIZE)) && (siglen == NULL || WR_OK(siglen, sizeof(*siglen))))
 ASSIGNS(ctx != NULL: OBJ_UPTO((uint8_t *)ctx, sizeof(*ctx)); sig != NULL: OBJ_UPTO(sig, SM2_MAX_SIGNATURE_SIZE); siglen != NULL: *siglen;
 	G_fs_precomp, G_fs_calls, G_fs_last, G_pc_calls, G_pc_last, G_fin_fed, G_fin_tbyte, G_fin_tseen, G_fin_calls)
 ENSURES(RET == 1 || RET == -1)
